@@ -1,3 +1,3 @@
 #!/bin/sh
 # helper: generate + run verus, compact error view
-cd /verif && python3 tools/gen.py >/dev/null && verus gen/lzma_rs_verus.rs --cfg 'feature="stream"' --cfg 'feature="raw_decoder"' --num-threads 16 --multiple-errors 20 "$@" 2>&1
+cd /verif && python3 tools/gen.py >/dev/null && verus gen/lzma_rs_verus.rs --cfg 'feature="stream"' --cfg 'feature="raw_decoder"' --num-threads 16 --multiple-errors 20 --triggers-mode silent --no-lifetime "$@" 2>&1
